@@ -7,53 +7,48 @@ namespace Midi.Sysex
 
 /-! ## `int32` sum and the checksum arithmetic -/
 
-theorem wrap32_spec (x : Int) :
-    (wrap32 x - x) % 4294967296 = 0 ∧ -2147483648 ≤ wrap32 x ∧ wrap32 x < 2147483648 := by
-  unfold wrap32; omega
-
-/-- the wrapped sum is congruent to the mathematical sum modulo 2^32 -/
-theorem sumI32_spec (l : Bytes) (acc : Int) :
-    (sumI32 l acc - (acc + ((l.sum : Nat) : Int))) % 4294967296 = 0 := by
+theorem sumU32_spec (l : Bytes) (acc : Nat) :
+    sumU32 l acc % 4294967296 = (acc + l.sum) % 4294967296 ∧ (acc < 4294967296 → sumU32 l acc < 4294967296) := by
   induction l generalizing acc with
-  | nil => simp [sumI32]
+  | nil => simp [sumU32]
   | cons b r ih =>
-    simp only [sumI32, List.sum_cons]
-    have h1 := ih (wrap32 (acc + (b : Int)))
-    have h2 := (wrap32_spec (acc + (b : Int))).1
-    push_cast
-    omega
+    simp only [sumU32, List.sum_cons]
+    have h1 := ih ((acc + b) % 4294967296)
+    constructor
+    · omega
+    · intro _; exact h1.2 (by omega)
 
-theorem sumI32_range (l : Bytes) (acc : Int) (h : -2147483648 ≤ acc ∧ acc < 2147483648) :
-    -2147483648 ≤ sumI32 l acc ∧ sumI32 l acc < 2147483648 := by
-  induction l generalizing acc with
-  | nil => simpa [sumI32] using h
-  | cons b r ih =>
-    simp only [sumI32]
-    exact ih _ (wrap32_spec _).2
+/-- the signed sum is congruent to the mathematical sum modulo 2^32 and lies in the `int32` range -/
+theorem sumI32_spec (l : Bytes) :
+    (sumI32 l - ((l.sum : Nat) : Int)) % 4294967296 = 0 ∧ -2147483648 ≤ sumI32 l ∧ sumI32 l < 2147483648 := by
+  have h := sumU32_spec l 0
+  have h2 := h.2 (by omega)
+  unfold sumI32 toI32
+  split <;> omega
 
 /-- whatever the length of the list (also when the `int32` sum wraps): the mathematical sum of the
     bytes plus the checksum is a multiple of 128, and the checksum is a byte -/
 theorem cksumOf_spec (l : Bytes) : (l.sum + cksumOf l) % 128 = 0 ∧ cksumOf l < 256 := by
-  have hs := sumI32_spec l 0
-  have hq := Int.tmod_add_mul_tdiv (sumI32 l 0) 128
-  have hlt := Int.tmod_lt_of_pos (sumI32 l 0) (b := 128) (by decide)
-  have hgt := Int.lt_tmod_of_pos (sumI32 l 0) (b := 128) (by decide)
+  have hs := (sumI32_spec l).1
+  have hq := Int.tmod_add_mul_tdiv (sumI32 l) 128
+  have hlt := Int.tmod_lt_of_pos (sumI32 l) (b := 128) (by decide)
+  have hgt := Int.lt_tmod_of_pos (sumI32 l) (b := 128) (by decide)
   unfold cksumOf
-  generalize Int.tmod (sumI32 l 0) 128 = r at *
-  generalize Int.tdiv (sumI32 l 0) 128 = q at *
+  generalize Int.tmod (sumI32 l) 128 = r at *
+  generalize Int.tdiv (sumI32 l) 128 = q at *
   simp only []
   split <;> omega
 
 /-- without wrap-around (sum below 2^31, i.e. every message shorter than 8 MB) the checksum is 7-bit -/
 theorem cksumOf_lt_128 (l : Bytes) (h : l.sum < 2147483648) : cksumOf l < 128 := by
-  have hs := sumI32_spec l 0
-  have hr := sumI32_range l 0 (by omega)
-  have hq := Int.tmod_add_mul_tdiv (sumI32 l 0) 128
-  have hlt := Int.tmod_lt_of_pos (sumI32 l 0) (b := 128) (by decide)
-  have hnn : 0 ≤ sumI32 l 0 := by omega
+  have hs := (sumI32_spec l).1
+  have hr := (sumI32_spec l).2
+  have hq := Int.tmod_add_mul_tdiv (sumI32 l) 128
+  have hlt := Int.tmod_lt_of_pos (sumI32 l) (b := 128) (by decide)
+  have hnn : 0 ≤ sumI32 l := by omega
   have hge := Int.tmod_nonneg (128 : Int) hnn
   unfold cksumOf
-  generalize Int.tmod (sumI32 l 0) 128 = r at *
+  generalize Int.tmod (sumI32 l) 128 = r at *
   simp only []
   split <;> omega
 
